@@ -39,7 +39,8 @@ RefEntries(l) ==
                                                                   pr \in (IF Family \in {"window", "tworec", "apprskip", "apprlate"} THEN {PrevOf(l, "main")} ELSE {0, PrevOf(l, "main")})}
     \cup {[k |-> "ref", ref |-> "feat", s |-> s, tree |-> 1, par |-> PrevOf(l, "feat")] : s \in {"p3", "kU"}}
 PropEntries(l) == IF Family \in {"core", "long"} THEN {[k |-> "prop", ref |-> "main", s |-> s, tree |-> 2, par |-> PrevOf(l, "main")] : s \in {"p1", "kU"}} ELSE {}
-AnnEntries(l) == LET R == {i \in 1..Len(l) : l[i].k = "ref"} IN
+\* (revoking a policy entry has no effect on which policy applies; "core" and "chain" include such annotations)
+AnnEntries(l) == LET R == {i \in 1..Len(l) : l[i].k = "ref" \/ (Family \in {"core", "chain", "long"} /\ l[i].k = "pol" /\ i > 1)} IN
                  {[k |-> "ann", tg |-> {i}, s |-> "p1"] : i \in R}
                  \cup (IF Family \in {"recovery", "tworec"} THEN {[k |-> "ann", tg |-> {i, j}, s |-> "p1"] : i, j \in R} ELSE {})
 App(r, f, t, sr, sf, st, by) == [ref |-> r, from |-> f, tree |-> t, sref |-> sr, sfrom |-> sf, stree |-> st, by |-> by]
